@@ -457,10 +457,19 @@ def run_tier(prop, tier, verif_seed, workers, runs=None, budget_s=None):
     # (max_tasks_per_child=1): JAX's compilation caches grow with every new closure, a long-lived worker would
     # eventually be OOM-killed in the thorough tiers.
     chunk = int(getattr(mod, "CHUNK", 400))
-    n_chunks = max(workers, -(-n // chunk))
-    per = -(-n // n_chunks)
-    shards = [list(range(c * per, min(n, (c + 1) * per))) for c in range(n_chunks)]  # contiguous blocks: plan kinds that
-    shards = [sh for sh in shards if sh]                                            # recur with a period stay spread out
+    # contiguous blocks: plan kinds that recur with a period stay spread out. A check may declare that its plans from a
+    # certain index on are heavy (complete training runs appended to a tier of cheap plans): those get their own, smaller chunks.
+    hf = getattr(mod, "HEAVY_FROM", {}).get(tier)
+    ranges = [(0, n, chunk)]
+    if hf is not None and 0 < hf < n:
+        ranges = [(0, hf, chunk), (hf, n, int(getattr(mod, "HEAVY_CHUNK", 24)))]
+    shards = []
+    for lo, hi, ch in ranges:
+        m = hi - lo
+        nc = max(workers if lo == 0 else 1, -(-m // ch))
+        per = -(-m // nc)
+        shards += [list(range(lo + c * per, min(hi, lo + (c + 1) * per))) for c in range(nc)]
+    shards = [sh for sh in shards if sh]
     min_budget = cfg.get("minimise_s", 60)
     args = [(prop, verif_seed, tier, sh, deadline, min_budget) for sh in shards]
     results = []
